@@ -222,7 +222,8 @@ impl<T: Qcow2IoOps> Qcow2Dev<T> {
             } else {
                 // the top device is asking for read, which is usually
                 // caused by top device resize, so simply fake we provide
-                // data requested
+                // data requested: nothing is stored there, so it is zero
+                zero_buf!(buf);
                 return Ok(buf.len());
             }
         }
@@ -255,6 +256,16 @@ impl<T: Qcow2IoOps> Qcow2Dev<T> {
         };
 
         debug_assert!((len & bs_mask) == 0);
+
+        // only the in-image part is read; what a backing image is asked
+        // for beyond its end is zero
+        let (buf, tail) = buf.split_at_mut(len);
+        if extra != 0 {
+            zero_buf!(tail);
+        }
+        if len == 0 {
+            return Ok(extra);
+        }
 
         let done = if single {
             let l2_entry = self.get_l2_entry(offset).await?;
